@@ -446,7 +446,10 @@ def str_format(I, fmt, args):
                 if isinstance(a, (SStr, SBytes, str, bytes)) or a is None:
                     raise PyRaise(TypeError("%d format: a number is required"), TypeError)
                 return Opaque("format")
-            parts.append(int_to_sstr(a, isb) if not isinstance(a, int) else (str(int(a)).encode() if isb else str(int(a))))
+            if is_sym_int(a) and a.get_id() in I.ghost.get("nonneg", ()):
+                parts.append(SStr(z3.IntToStr(a), isb))
+            else:
+                parts.append(int_to_sstr(a, isb) if not isinstance(a, int) else (str(int(a)).encode() if isb else str(int(a))))
         elif conv == "s":
             if isb:
                 if isinstance(a, bytes) or (isinstance(a, SStr) and a.is_bytes):
